@@ -153,10 +153,16 @@ func (s *c07) decodeCheck(w int, seq []uint8, segs []hybrid.Seg, id string) {
 			if g > 63 {
 				s.c.Out.Count("decoder_runs_over_63_groups", 1)
 			}
+			if g >= 8192 {
+				s.c.Out.Count("decoder_bitpacked_3byte_header", 1)
+			}
 		} else {
 			s.c.Out.Max("decoder_max_rle_count", int64(sg.N))
 			if sg.N >= 64 {
 				s.c.Out.Count("decoder_rle_2byte_header", 1)
+			}
+			if sg.N >= 8192 {
+				s.c.Out.Count("decoder_rle_3byte_header", 1)
 			}
 		}
 	}
@@ -290,6 +296,48 @@ func runC07(c *Ctx) {
 		}
 		if k < 4 {
 			c.Out.Sample(map[string]interface{}{"case": id, "width": w, "length": len(seq), "run_length_form": rlForm(seq)})
+		}
+	}
+	// (2b) a fixed set of long sequences: 3-byte run headers (RLE runs >= 8192 values,
+	// bit-packed runs >= 8192 groups) must be exercised in every tier
+	for w := 1; w <= 4; w++ {
+		m := uint8(1<<uint(w) - 1)
+		for li, l := range []int{8191, 8192, 8193, 16384, 65544} {
+			for kind := 0; kind < 2; kind++ {
+				id := fmt.Sprintf("long/w=%d/len=%d/kind=%d", w, l, kind)
+				if !c.Take(id) {
+					continue
+				}
+				seq := make([]uint8, l+3)
+				for i := range seq {
+					if kind == 0 {
+						seq[i] = m // one long constant run (after which the value changes)
+						if i >= l {
+							seq[i] = 0
+						}
+					} else {
+						seq[i] = uint8(i+li) & m // no repeats: bit-packed only
+						if w == 1 {
+							seq[i] = uint8((i / 3) & 1) // width 1: short runs, never 8 equal
+						}
+					}
+				}
+				c.Out.Count("cases", 1)
+				c.Out.Count("long_sequences", 1)
+				c.Out.Distinct(id, true)
+				s.encodeCheck(w, seq, id)
+				rng := Rng(c.Seed, "c07/"+id)
+				for _, st := range []hybrid.Style{hybrid.StyleBigBP, hybrid.StyleRLEOnly, hybrid.StyleMixed} {
+					if st == hybrid.StyleRLEOnly && kind == 1 {
+						continue
+					}
+					segs := hybrid.RandomSegs(rng, seq, st)
+					if st == hybrid.StyleBigBP {
+						segs = []hybrid.Seg{{BitPacked: true, N: len(seq)}} // a single run of > 8192 groups when long enough
+					}
+					s.decodeCheck(w, seq, segs, id)
+				}
+			}
 		}
 	}
 	// (3) the same through the public column API (writeLevels/readLevels/DoRead trimming)
